@@ -86,8 +86,12 @@ func (r *RuleCtx) add(st Status, construct string, pos token.Pos, detail string)
 	r.Obs = append(r.Obs, &Obligation{Rule: r.Info.ID, Construct: construct, Key: key, Pos: r.C.P.Rel(pos), Status: st, Detail: detail})
 }
 
-func (r *RuleCtx) Ok(construct string, pos token.Pos, detail string)  { r.add(Discharged, construct, pos, detail) }
-func (r *RuleCtx) Bad(construct string, pos token.Pos, detail string) { r.add(Violated, construct, pos, detail) }
+func (r *RuleCtx) Ok(construct string, pos token.Pos, detail string) {
+	r.add(Discharged, construct, pos, detail)
+}
+func (r *RuleCtx) Bad(construct string, pos token.Pos, detail string) {
+	r.add(Violated, construct, pos, detail)
+}
 func (r *RuleCtx) Unknown(construct string, pos token.Pos, detail string) {
 	r.add(Undecided, construct, pos, detail)
 }
